@@ -70,7 +70,8 @@ SPECIALS = ["", "\n", "\n\n\n", " ", "\t", "(", ")", "{", "}", "def f(", "def f(
             "f(", "f()", "f() {", "f(){}", "f () { }", "x => {", "const f = (", "const f = () =>", "const f = (a = () => 0) => {}",
             "function f(a = g(1)) { }", "f({)}", "f(}{)", "\ufeffdef f():\n  pass\n", "def f():\r\n    pass\r\n", "def f():\n\tpass\n",
             "a\\\n", "def f(a,\n", "class A:\n  def f(self):\n    pass", "f()\n{", "f(\n)\n{\n}", "void f() { /* } */ }", "void f() { // }\n}",
-            "void f() { \"}\" }", "void f() { '}' }", "x = 1\n// c\n", "function f() {\n  x = 1\n// c\n}\n"]
+            "void f() { \"}\" }", "void f() { '}' }", "x = 1\n// c\n", "function f() {\n  x = 1\n// c\n}\n",
+            "def o():\n  def g():\n    async\n  def f(): pass\n  x\n", "total = 1 + \\\n"]
 
 
 def stream(rng, lang, n, seed_base):
